@@ -184,7 +184,7 @@ pub fn year_set(ctx: &Ctx) -> Vec<i64> {
             }
         }
     }
-    let extra = ctx.n(1_500, 200_000);
+    let extra = ctx.count(1_500, 200_000);
     let mut rng = Rng::new(ctx.seed ^ hash_str("C01-years"));
     for _ in 0..extra {
         ys.push(rng.range_i64(-5_879_612, 5_879_612));
@@ -340,7 +340,7 @@ pub fn run(ctx: &Ctx) -> PropResult {
             }
         }
     }));
-    wls.push(Workload::cases("triples_random", ctx.n(120_000, 1_000_000), move |rec, _idx, rng| {
+    wls.push(Workload::cases("triples_random", ctx.count(120_000, 1_000_000), move |rec, _idx, rng| {
         let y = if rng.chance(1, 4) { rng.range_i64(i32::MIN as i64, i32::MAX as i64) } else { rng.range_i64(-5_879_612, 5_879_612) };
         let m = if rng.chance(1, 16) { rng.next() as u32 } else { rng.below(14) as u32 };
         let d = if rng.chance(1, 16) { rng.next() as u32 } else { rng.below(33) as u32 };
